@@ -20,7 +20,7 @@ def sortBy (lt : α → α → Bool) (l : List α) : List α := l.foldr (insSort
 
 def showOut : Out → String
   | .ok => "ok"
-  | .msg a => s!"msg {a % 65536}"
+  | .msg a => s!"msg {Nsq.Model.Chan.wireAttempts a}"
   | .err code fatal => s!"{code} {if fatal then "fatal" else "nonfatal"}"
   | .ids l => joinSp ("ids" :: l.map toString)
   | .reject why => s!"REJECT {why}"
@@ -34,9 +34,9 @@ def b (x : Bool) : String := if x then "1" else "0"
 def dumpChan (c : Chan) : String :=
   let es := sortBy (fun (a b : Entry) => a.id < b.id) c.msgs
   let infl := es.filterMap (fun e => match e.loc with
-    | .inflight k p d => some s!"{e.id}:{k}:{e.att % 65536}:{p}:{d}" | _ => none)
+    | .inflight k p d => some s!"{e.id}:{k}:{Nsq.Model.Chan.wireAttempts e.att}:{p}:{d}" | _ => none)
   let defd := es.filterMap (fun e => match e.loc with
-    | .deferred p => some s!"{e.id}:{e.att % 65536}:{p}" | _ => none)
+    | .deferred p => some s!"{e.id}:{Nsq.Model.Chan.wireAttempts e.att}:{p}" | _ => none)
   let cls := (sortBy (fun (a b : Client) => a.conn < b.conn) c.clients).map (fun cl =>
     s!"{cl.conn}:{cl.rdy}:{cl.inFlight}:{cl.msgCount}:{cl.finCount}:{cl.reqCount}:{b cl.closing}")
   s!"depth={c.memLen + c.dqLen} inflight=[{joinSp infl}] deferred=[{joinSp defd}] mc={c.messageCount} rq={c.requeueCount} to={c.timeoutCount} paused={b c.paused} clients=[{joinSp cls}]"
